@@ -402,8 +402,9 @@ def synthetic_case(rng, combos=None, pname=None, big=False, extra=None):
     pe, pp = geo["pattern"]["elems"], geo["pattern"]["pos"]
     rj, rinfo = make_replacement(rng, pe, pp, cfg)
     sj, stats = make_structure(rng, geo, rj, rinfo, cfg)
-    opts = {"atol": 0.05, "fraction": 1.0 if rng.random() < 0.8 else rng.choice([0.5, 0.34, 0.75]),
-            "replace_all": rng.random() < 0.15, "ignore": False, "seed": rng.randint(0, 10 ** 6)}
+    opts = {"atol": 0.05,
+            "fraction": 1.0 if rng.random() < 0.75 else rng.choice([0.0, 0.1, 0.25, 0.34, 0.5, 0.75, 0.9, 1, 1.5]),
+            "replace_all": rng.random() < 0.15, "ignore": rng.random() < 0.15, "seed": rng.randint(0, 10 ** 6)}
     meta = {"pattern": pname, "cell": geo["info"]["cell"], "copies": geo["info"]["copies"], "combo": cfg["combo"],
             "s_pair": cfg["s_pair"], "r_pair": cfg["r_pair"], "override_planned": stats["override_planned"], "same_label_types": stats["same_label"], "nudged_atoms": len(rinfo.get("nudged", {})),
             "terms_on_nudged_partner": stats.get("on_nudged", 0)}
@@ -447,3 +448,75 @@ def chained_second(rng, first_case, result1):
     meta = {"pattern": "chain:" + first_case["meta"]["pattern"], "cell": first_case["meta"]["cell"], "combo": combos,
             "s_pair": bool(s2["types"]["pair"]), "r_pair": cfg["r_pair"], "chain": 2, "override_planned": 0, "same_label_types": nsame}
     return {"s": s2, "p": search_json(pe, pp), "r": rj, "opts": opts, "meta": meta}
+
+
+def zero_match_case(rng, kind):
+    """nothing is replaced (fraction 0, or a search pattern that does not occur) — but `extend_types` runs before the
+    loop, so the two table-misalignment findings (pair coefficients, orphan coefficient table) fire all the same"""
+    combos = {k: rng.choice(COMBO_NAMES) for k in KINDS}
+    combos[kind] = ORPHAN
+    case = synthetic_case(rng, combos=combos, extra={"min_bystanders": 5, "same_label": False, "s_pair": False,
+                                                      "r_pair": True, "nudge": False})
+    if rng.random() < 0.5:
+        case["opts"]["fraction"] = 0.0
+    else:                      # a search pattern made of an element the structure does not contain
+        case["opts"]["fraction"] = 1.0
+        case["p"]["types"]["elem"] = ["Xe"] * len(case["p"]["types"]["elem"])
+        case["p"]["types"]["label"] = list(case["p"]["types"]["elem"])
+        case["p"]["types"]["mass"] = [core.q(masses()["Xe"])] * len(case["p"]["types"]["elem"])
+    case["opts"]["replace_all"] = False
+    case["meta"]["stream"] = "zero-match:" + kind
+    return case
+
+
+def overlap_case(rng, variant=None, mode=None):
+    """neighbouring occurrences that overlap so that one match's RETAINED atom is another match's REMOVED atom (mode
+    'steal': the replacement keeps the first atom of a same-element pair and changes the second), or that retain the
+    same atom in roles with different pattern types (mode 'contest'). Chains and stars of one element."""
+    variant = variant or rng.choice(["chain", "chain", "star"])
+    mode = mode or rng.choice(["steal", "steal", "contest"])
+    el = rng.choice(["C", "N", "Si"])
+    d = Fraction(3, 2)
+    if variant == "chain":
+        pts = [(i * d, 0, 0) for i in range(rng.randint(3, 5))]
+    else:
+        arms = rng.sample([(d, 0, 0), (0, d, 0), (0, 0, d), (-d, 0, 0), (0, -d, 0)], rng.randint(2, 3))
+        pts = [(0, 0, 0)] + arms
+    R = findlib.rotmat(findlib.rat_quat(rng, rng.choice(["identity", "axis90", "random"])))
+    org = [Fraction(rng.randint(3 * 8, 15 * 8), 8) for _ in range(3)]
+    pos = [[float(x + o) for x, o in zip(findlib.matvec(R, [Fraction(v) for v in pt]), org)] for pt in pts]
+    n0 = len(pos)
+    by = rng.choice([e for e in BYSTANDER_ELEMENTS])
+    elems = [el] * n0 + [by, by]
+    pos += [[float(Fraction(rng.randint(0, 19 * 8), 8)) for _ in range(3)] for _ in range(2)]
+    cell = [[20.0, 0, 0], [0, 20.0, 0], [0, 0, 20.0]]
+    pos = [[x % 20.0 for x in p] for p in pos]
+    order = list(range(1, len(elems) + 1))
+    rng.shuffle(order)
+    sj = findlib.struct_json(elems, pos, cell, charges=[Fraction(o, 64) for o in order], groups=[rng.randint(0, 2) for _ in elems])
+    sj["types"]["label"] = [l + "s1" for l in sj["types"]["label"]]
+    sj["types"]["pair"] = [pair_text("s", l, rng) for l in sj["types"]["label"]]
+    # original bonds: along the motif and to the bystanders
+    bonds = [[i, i + 1] for i in range(n0 - 1)] if variant == "chain" else [[0, i] for i in range(1, n0)]
+    bonds += [[rng.randrange(n0), n0], [n0, n0 + 1]]
+    sj["terms"]["bond"] = [{"a": b if rng.random() < 0.5 else b[::-1], "ty": rng.randrange(2), "x": []} for b in bonds]
+    sj["types"]["bond"] = [coeff_text("s", "bond", i, rng) for i in range(2)]
+    pj = search_json([el, el], [[0, 0, 0], [float(d), 0, 0]])
+    if mode == "steal":
+        new = rng.choice([e for e in NEW_ELEMENTS if e != el])
+        rel = [el, new]
+    else:
+        rel = [el, el]
+    rj = findlib.struct_json(rel, [[0, 0, 0], [float(d), 0, 0]], None, charges=[Fraction(-1, 64), Fraction(-2, 64)], groups=[1, 2])
+    M = masses()
+    rj["atoms"][0]["ty"], rj["atoms"][1]["ty"] = 0, 1
+    rj["types"]["elem"] = rel
+    rj["types"]["label"] = [rel[0] + "r1", rel[1] + "r2"]
+    rj["types"]["mass"] = [core.q(M[rel[0]]), core.q(Fraction(M[rel[1]]).limit_denominator(10 ** 6) + Fraction(3, 64))]
+    rj["types"]["pair"] = [pair_text("r", l, rng) for l in rj["types"]["label"]]
+    rj["terms"]["bond"] = [{"a": [0, 1] if rng.random() < 0.5 else [1, 0], "ty": 0, "x": []}]
+    rj["types"]["bond"] = [coeff_text("r", "bond", 0, rng)]
+    opts = {"atol": 0.05, "fraction": 1.0, "replace_all": False, "ignore": rng.random() < 0.3, "seed": rng.randint(0, 10 ** 6)}
+    meta = {"pattern": "overlap:%s:%s" % (variant, mode), "cell": "ortho", "stream": "overlap", "override_planned": 0,
+            "combo": {"bond": "TT", "angle": "s0N-r0N", "dihedral": "s0N-r0N", "improper": "s0N-r0N"}}
+    return {"s": sj, "p": pj, "r": rj, "opts": opts, "meta": meta}
